@@ -140,6 +140,9 @@ class SocketSpawn(SpawnBase):
                 if s == b'':
                     self.flag_eof = True
                     raise EOF("Socket closed")
+                # Same as the other transports: decode (unicode mode) and log
+                s = self._decoder.decode(s, final=False)
+                self._log(s, 'read')
                 return s
         except (socket.timeout, BlockingIOError):
             # timeout=0 puts the socket in non-blocking mode, which reports
